@@ -9,6 +9,7 @@ import FatVerif.Model.FormatDriver
 import FatVerif.Model.FatDriver
 import FatVerif.Model.CursorDriver
 import FatVerif.Model.IoWrap
+import FatVerif.Model.ApiGlue
 /-! `fatmodel pure`: read `P` lines, compare the model with the implementation's recorded output, run oracles. -/
 namespace FatVerif.PureMain
 
@@ -25,7 +26,8 @@ def suites : List Suite := [
   ⟨FormatDriver.handle, FormatDriver.oracle, FormatDriver.branch⟩,
   ⟨FatDriver.handle, FatDriver.oracle, FatDriver.branch⟩,
   ⟨CursorDriver.handle, CursorDriver.oracle, CursorDriver.branch⟩,
-  ⟨IoWrap.handle, IoWrap.oracle, IoWrap.branch⟩]
+  ⟨IoWrap.handle, IoWrap.oracle, IoWrap.branch⟩,
+  ⟨ApiGlue.handle, ApiGlue.oracle, ApiGlue.branch⟩]
 
 def dispatch (fn : String) (args : List String) : Option (String × Suite) :=
   suites.findSome? fun s => (s.handle fn args).map fun r => (r, s)
